@@ -66,51 +66,63 @@ def res_term(s):
 class C18(Property):
     id = "C18"
     title = "Authentication gates: protected handlers run only for valid credentials"
-    quick_cases = 800
+    quick_cases = 700
     thorough_cases = 9000
     design_ref = "DESIGN.md §6/C18"
     proof_targets = ["theories/C18/Props.vo", "theories/C18/Pinned.vo", "theories/C18/GenProofs.vo",
                      "theories/C18/ProofsCheck.vo"]
-    level_text = ("Unbounded Rocq theorems over decision models with abstract cryptography (mac, RSA inverse pair, block "
-                  "permutation E/D, base64 codec as Section variables with explicit hypotheses): the JWT gate calls the handler "
-                  "iff the token's signature is the HMAC under the current or previous secret with an HS method and exp/nbf/iat "
-                  "hold now, whatever the hit-counter history; otherwise 401 and no context; every single-field mutation of a "
-                  "valid token is rejected unless it is a mac collision; non-registered claims are what the handler sees. "
-                  "Strict content security calls the handler for DELETE/GET/POST/PUT only if the signature is the MAC, under a "
-                  "key from a secret that decrypts under a configured fingerprint, of exactly (timestamp within tolerance, "
-                  "method, path, query, body digest). PKCS#7 pad/unpad and ECB round-trip for every payload (list-level proof), "
-                  "and the cryption handler delivers the decrypted body / encrypted response. Tied to the Go code by "
-                  "differential execution through httptest with Go's own crypto recomputing every credential.")
+    level_text = ("Unbounded Rocq theorems over decision models with abstract cryptography (mac, RSA decryption per private key, "
+                  "block permutation E/D, base64 codec as Section variables with explicit hypotheses): the JWT gate calls the "
+                  "handler iff the token's signature is the HMAC under the current or previous secret with an HS method and "
+                  "exp/nbf/iat hold now, whatever the hit-counter history and the reset setting, over every request sequence on "
+                  "one middleware and every call sequence on one TokenParser with per-call secrets; the error reported is 'none' "
+                  "iff accepted; otherwise 401 and no context; every single-field mutation of a valid token is rejected unless it "
+                  "is a mac collision. Strict content security calls the handler for DELETE/GET/POST/PUT only if the signature is "
+                  "the MAC, under a key from a secret that decrypts under the private key that THE ROUTE GROUP'S OWN map gives for "
+                  "the fingerprint, of exactly (timestamp within tolerance, method, path, query, body digest). Server level: for "
+                  "every list of route groups with their own configurations, every request sequence: a handler runs only for "
+                  "credentials valid for the configuration of the group that registered the route; groups are isolated. PKCS#7 "
+                  "pad/unpad and ECB round-trip for every payload, bodies with known or unknown length reach the handler "
+                  "decrypted, the response is encrypted. prop_ok's executable specifications are proved sound and complete "
+                  "w.r.t. the theorem predicates (ProofsCheck.v). Tied to the Go code by differential execution through "
+                  "httptest / real rest.Server instances with Go's own crypto recomputing every credential.")
     level_note = ("Trusted: Coq kernel + vm_compute; hand-written models; golang-jwt/v4 (segment/JSON parsing, alg registry), "
                   "Go crypto and encoding/base64; unforgeability of HMAC/RSA/AES is a computational assumption, the theorems "
                   "carry explicit no-collision hypotheses. Known findings: F9 (methods other than DELETE/GET/POST/PUT are not "
                   "verified), X-Request-Uri overrides the signed path/query. Fixed: F16 unpad, bodies of unknown length (f372be8).")
-    rule = ("jwt cases: 3-8 requests through one Authorize middleware (secret, optional previous secret), each a valid token or "
-            "one of ~45 single-field mutation classes; cs/crypt cases: one signed (optionally AES-ECB encrypted) request with at "
-            "most two mutations out of ~55 classes; eng cases: the same request sent to one route of a real rest.Server "
-            "with 6 route groups (JWT / signature / both / public siblings / prefixes); hdr cases: one generated "
-            "header string through httpx.ParseHeader. non-trivial = jwt case with both an accepted and a rejected token that "
-            "parses, or a cs case whose secret decrypts (signature actually compared), or a crypt case whose body is valid "
-            "base64; distinct = canonical JSON hash of the case")
+    rule = ("jwt: 3-11 requests through one Authorize middleware (secret, optional previous secret; no / recording / status-"
+            "writing unauthorized callback), each a valid token or one of ~75 mutation classes, plus replays of the same raw "
+            "token at other times; tp: 4-12 calls on one token.TokenParser with per-call (secret, prevSecret), with or without "
+            "history reset; cs/crypt: one signed (optionally AES-ECB encrypted) request with at most two mutations out of ~70 "
+            "classes, through the Limit* handlers or their default-limit wrappers; eng: the same request to one route of a real "
+            "rest.Server with 6 route groups sharing one configuration (prefixes, path variables, public siblings, server.Use); "
+            "srv: a real rest.Server with 2-5 route groups each with its OWN JWT secrets / signature keys (fingerprint -> key "
+            "file, possibly the same fingerprint for different files) / strictness / tolerance, sometimes a configuration that "
+            "must not start, and 3-8 requests each aimed at one group with credentials made for any group; hdr: one header "
+            "string through httpx.ParseHeader. non-trivial = jwt/tp case with both an accepted and a rejected token that parses, "
+            "cs case whose secret decrypts, crypt case whose body is valid base64, srv case with >= 2 protected groups and both "
+            "an accepted and a rejected request; distinct = canonical JSON hash of the case")
     trusted_base = [
-        "models theories/C18/Model.v are hand-written; tie = correspondence run (harness/cmd/c18) on generated requests",
-        "golang-jwt/jwt/v4 v4.5.2: token splitting, base64url/JSON decoding, alg registry, jwt.TimeFunc used as virtual clock",
+        "models theories/C18/{Model,Server,Header}.v are hand-written; tie = correspondence run (harness/cmd/c18) on generated requests",
+        "golang-jwt/jwt/v4 v4.5.2: token splitting, base64url/JSON decoding, alg registry, ValidationError bits, "
+        "jwt.TimeFunc used as virtual clock; whole-second comparison of numeric time claims (floor, recomputed by the harness)",
         "Go crypto/hmac, crypto/rsa, crypto/aes, crypto/sha256, encoding/base64 (harness recomputes credentials with them)",
-        "harness classification of the bytes it sent (harness/cmd/c18/main.go: classify, buildCS) and the interning of "
-        "strings to identifiers in tools/props/c18.py",
-        "content security reads time.Now(): the harness uses the wall clock second, retried until stable across the request",
-        "eng cases run a real rest.Server (engine.bindRoutes binds onto our router; Start fails on an invalid port "
-        "right after binding, nothing listens); cs/jwt/crypt cases mirror the composition of rest/engine.go",
-        "constants (header/attribute names, registered claims, verified methods, ...) are re-extracted by "
-        "tools/c18consts.py (regex over the Go declarations) into coq/gen/C18Consts.v",
+        "harness classification of the bytes it sent (harness/cmd/c18/main.go: classify, buildCSReq, codecExtras) and the "
+        "interning of strings to identifiers in tools/props/c18.py",
+        "content security reads time.Now(): the harness uses the wall clock second (retried / started early in a second, "
+        "a request during which the second changes is not compared)",
+        "eng/srv cases run a real rest.Server (engine.bindRoutes binds onto our router; Start fails on an invalid port "
+        "right after binding, nothing listens); routes of srv cases are literal paths",
+        "constants and the unknown-length flag are re-extracted by tools/c18consts.py (regex over the Go declarations) "
+        "into coq/gen/C18Consts.v",
         "ParseHeader model covers ASCII white space only",
     ]
     assumptions = [
         "HMAC, RSA-PKCS1v15 and AES are abstract functions; unforgeability is a computational assumption (explicit "
         "no-collision hypotheses in the mutation theorems)",
         "strings.Join(ts, method, path, query, digest) with newline separators is injective (only the path may contain a newline)",
-        "time claims are integral JSON numbers within int64/float64 exact range",
-        "TokenParser history reset (24 h of real time) is not modelled; theorems hold for every history state",
+        "numeric time claims are JSON numbers of magnitude < 1e15 (beyond that float64 -> int64 conversion in jwt is not modelled)",
+        "the 24 h reset of TokenParser.history is modelled as a flag (period over / not over), not as a clock",
     ]
 
     # ------------------------------------------------------------------ translators
